@@ -458,5 +458,5 @@ def run(rep):
     if okc_ is None or not arr_paths:
         rep.undecided("R01.f", "data/dutils.py", "cast", "array branch returns np.array(y).astype(dtype of x): shape untouched", detc_ or "array branch not found", line=cf.lineno)
     else:
-        rep.check(okc_, "R01.f", "data/dutils.py", "cast", "array branch returns np.array(y).astype(dtype of x): shape untouched", detc_, line=cf.lineno)
+        rep.check(okc_, "R01.f", "data/dutils.py", "cast", "array branch returns np.array(y).astype(dtype of x): shape untouched", detc_, line=cf.lineno, firm=True)
     return EXPLANATION
